@@ -12,7 +12,7 @@ PROP = "C14"
 HARNESS = "locale"
 COMPONENT = "locale"
 VARIANT = "asan"
-WRAPS = ("newlocale", "duplocale", "freelocale", "uselocale", "strtod")
+WRAPS = ("newlocale", "duplocale", "freelocale", "uselocale", "strtod", "malloc", "calloc", "realloc", "strdup")
 COMMA = "xx_XX.utf8"      # copy of C.utf8 with ',' as decimal point
 CCOPY = "cc_CC.utf8"      # unmodified copy of C.utf8: a C-convention locale that is *not* glibc's static C-locale object
 RULE = ("locale configurations {C, comma-decimal} installed globally (setlocale) x {none, C, comma} per thread (uselocale of a "
@@ -256,6 +256,15 @@ def gen(rng, tier):
                 yield {"lines": setup(g, t) + px_lines(32, 0, [("z", "[1.5,2.25e3]")], "success", inj) +
                        px_lines(32, 0, [("z", "[1.5,2.25e3]")], "success"), "keep": 2}
             yield {"lines": setup(g, t) + ["tok 32 0", "px - size bad " + h("1.5"), "px - success z " + h("1.5")], "keep": 2}
+            # the out-of-memory return paths: the k-th allocation of the call fails, for every k the call can reach
+            # (round-6 seed C14-13: one allocation-failure branch returned without going through the common exit)
+            if (g, t) in (("comma", "global"), ("C", "comma"), ("comma", "comma")) or not quick:
+                for text in ('{"ab":[1.5,{"c":"x\\u00e9"}],"d":2.25e3}', '[[1.5],"0123456789012345678901234567890123456789",{"k":{"k":null}}]'):
+                    lines = setup(g, t)
+                    for k in range(1, 40):
+                        lines += px_lines(32, 0, [("z", text)], "*", "m%d" % k)
+                    lines += px_lines(32, 0, [("z", text)], "success")
+                    yield {"lines": lines, "keep": 2}
             lines = setup(g, t)
             for x in (BOUNDARY_DOUBLES if not quick else BOUNDARY_DOUBLES[:16]):
                 for fl in (0, 4):
